@@ -14,7 +14,7 @@ type swCfg struct{ size, slide, ooo, late int64 }
 
 func newSliding(c swCfg) (stepWin, error) {
 	cfg := types.WindowConfig{
-		Type: "sliding", Params: []any{time.Duration(c.size), time.Duration(c.slide)}, TsProp: "ts", TimeUnit: time.Nanosecond,
+		Type: "sliding", Params: []any{time.Duration(c.size), time.Duration(c.slide)}, TsProp: "ts", TimeUnit: time.Duration(tsCarrier.unit),
 		MaxOutOfOrderness: time.Duration(c.ooo), AllowedLateness: time.Duration(c.late),
 		TimeCharacteristic: types.EventTime,
 	}
@@ -78,11 +78,19 @@ func runC08(tier string, seed uint64, o *Out) error {
 		c.ooo = []int64{0, c.size / 2, 3 * c.size}[rng.Intn(3)]
 		c.late = []int64{0, 0, c.slide, 3 * c.size}[rng.Intn(4)] // late rows re-deliver open fired intervals
 		n := 5 + rng.Intn(36)
-		ops := genTimeOps(rng, c.slide, c.ooo, n, nil, rng.Intn(5) == 0)
+		unit, farOK := pickTsCarrier(rng)
+		ops := genTimeOps(rng, c.slide, c.ooo, n, nil, farOK && rng.Intn(5) == 0)
 		if i%25 == 3 {
 			ops = overflowThenQuiet(rng, c.slide, nil)
 		}
-		if err := slidingLine(o, "C08", c, ops, fmt.Sprintf("size=%d slide=%d", c.size, c.slide)); err != nil {
+		scaleOps(ops, unit)
+		tag := fmt.Sprintf("size=%d slide=%d", c.size, c.slide)
+		if tsCarrier.kind != 0 || unit != 1 {
+			tag = fmt.Sprintf("timestamp carried as kind %d unit %d", tsCarrier.kind, unit)
+		}
+		err := slidingLine(o, "C08", swCfg{c.size * unit, c.slide * unit, c.ooo * unit, c.late * unit}, ops, tag)
+		resetTsCarrier()
+		if err != nil {
 			return err
 		}
 	}
